@@ -65,9 +65,13 @@ template <class S, size_t DIM> void boxes(vf::Ctx& c, const char* tname, size_t 
       if (ti.lower() != (ce - h).eval() || ti.upper() != (ce + h).eval()) c.violation("AxisAlignedBoundingBox.toInterval", vf::JO().str("type", tname).raw("centre", vj(ce)).raw("half", vj(h)).done(), "{}");
     }
     std::vector<std::vector<S>> q(DIM); vf::Radix rq; for (size_t d = 0; d < DIM; ++d) { q[d] = qvals<S>(h[d]); rq.dims.push_back(q[d].size()); }
+    OrientedBoundingBox<S, DIM> keepObb(P::Constant((S)3), P::Constant((S)0.5), rots[rots.size() / 2]);   // long-lived box overwritten by assignment on every other rotation
     for (size_t ir = 0; ir < rots.size(); ++ir) {
       const R& Rm = rots[ir];
-      OrientedBoundingBox<S, DIM> obb(ce, h, Rm);
+      OrientedBoundingBox<S, DIM> obbConstructed(ce, h, Rm);
+      if (ir % 2) keepObb = obbConstructed;
+      OrientedBoundingBox<S, DIM> obbCopy(obbConstructed);
+      const OrientedBoundingBox<S, DIM>& obb = ir % 2 ? keepObb : (ir % 4 == 2 ? obbCopy : obbConstructed);   // constructed / copy-constructed / assigned forms in turn
       LR Rl = Rm.template cast<long double>(); LP cl = ce.template cast<long double>();
       bool identity = ir == 0;
       for (uint64_t iq = 0; iq < rq.total(); ++iq) {
@@ -123,6 +127,7 @@ template <class S, size_t DIM> void intervals(vf::Ctx& c, const char* tname) {
     for (size_t d = 0; d < DIM; ++d) { auto& A = iv[(i + 3 * d) % iv.size()]; auto& B = iv[(j + 5 * d) % iv.size()]; lo1[d] = A.first; hi1[d] = A.second; lo2[d] = B.first; hi2[d] = B.second; }
     Interval<S, DIM> a(lo1, hi1), b(lo2, hi2);
     Interval<S, DIM> u = a; u.include(b);
+    { Interval<S, DIM> v(lo2, hi2); v = a; v.include(b); if ((i + j) % 2) u = v; }   // every other pair goes through an interval overwritten by assignment
     c.eval(); c.nontrivial();
     bool ok = true; for (size_t d = 0; d < DIM; ++d) if (u.lower()[d] != std::min(lo1[d], lo2[d]) || u.upper()[d] != std::max(hi1[d], hi2[d])) ok = false;
     if (!ok) c.violation("Interval.include", vf::JO().str("type", tname).i("dim", DIM).raw("lo1", vj(lo1)).raw("hi1", vj(hi1)).raw("lo2", vj(lo2)).raw("hi2", vj(hi2)).done(), vf::JO().raw("lower", vj(u.lower())).raw("upper", vj(u.upper())).done());
@@ -165,6 +170,12 @@ template <class PT> void extents(vf::Ctx& c, const char* tname) {
     S wantScale = (S)1 / (S)side;
     if (side > 0 ? fabsl((long double)pre.getScale() - (long double)wantScale) > 4 * (long double)std::numeric_limits<S>::epsilon() * (long double)wantScale : !(std::isinf(pre.getScale()) && pre.getScale() > 0)) ok = false;
     if (!ok) c.violation("PointSetPreconditioner.extents", params, vf::JO().raw("min", vj(pre.getPointSetMin())).raw("want_min", vj(mn)).raw("max", vj(pre.getPointSetMax())).raw("want_max", vj(mx)).raw("mean", vj(pre.getPointSetMean())).raw("want_mean", vj(me)).num("scale", pre.getScale()).num("want_scale", wantScale).done());
+    {   // a copy and an assigned-to preconditioner (which had computed another set) report the same extents
+      PointSetPreconditioner<PT> cp(pre); PointSet<PT> far; far.push_back(PT(PT::Constant((S)-777))); PointSetPreconditioner<PT> as(far); as = pre;
+      bool same = cp.getScale() == pre.getScale() && as.getScale() == pre.getScale() && cp.getTranslation() == pre.getTranslation() && as.getTranslation() == pre.getTranslation();
+      for (int d = 0; d < SIZE; ++d) if (cp.getPointSetMin()[d] != pre.getPointSetMin()[d] || as.getPointSetMin()[d] != pre.getPointSetMin()[d] || cp.getPointSetMax()[d] != pre.getPointSetMax()[d] || as.getPointSetMax()[d] != pre.getPointSetMax()[d] || cp.getPointSetMean()[d] != pre.getPointSetMean()[d] || as.getPointSetMean()[d] != pre.getPointSetMean()[d]) same = false;
+      if (!same && side > 0) c.violation("PointSetPreconditioner.copyOrAssignedDiffers", params, "{}");
+    }
     // recompute on the same object with another set: no leftovers
     PointSet<PT> one; one.push_back(pts[0]);
     pre.compute(one);
@@ -214,7 +225,7 @@ std::string vf_describe(const std::string& tier) {
   o.str("rotations", "2D: 16 angles (multiples of pi/8, some offset by 0.1); 3D: 6 axes x {0,0.3,pi/2,2,pi,-1.1}");
   o.str("query_points", "box-frame lattice per axis {0,+-h/2,+-h,+-h(1+-2^-20),+-2h,+-(h+0.5)} mapped to world; points within 8 ulp of a face accept either verdict, except centre 0 without rotation where the face verdict is exact");
   o.str("intervals", "all pairs of intervals with bounds from {-1000,-1.5,0,0.25,1000}, per-axis rotation of the pair list; 1-D specialisation too");
-  o.str("point_sets", "sizes {1,2,3,7,50,1000} x every octant (all-negative included) x offsets {0.5,40,2500} x {lattice, tight cluster, collinear} x 8 point types; recompute on the same object");
+  o.str("point_sets", "sizes {1,2,3,7,50,1000} x every octant (all-negative included) x offsets {0.5,40,2500} x {lattice, tight cluster, collinear} x 8 point types; recompute on the same object; copy-constructed and assigned-to preconditioners; oriented boxes in constructed / copied / assigned form, intervals through assignment");
   return o.done();
 }
 
